@@ -41,6 +41,7 @@ static uint64_t last_handle, m_current;
 static bool current_defined;
 static uint64_t n_invocations, n_expected_invocations;
 static int o_depth;
+static int o_survivors;
 static double o_start;
 static const char *opname = "init";
 static char subjA, subjB, objX, objY;
@@ -419,7 +420,61 @@ static void run_one(void)
     }
     cmb_event_queue_initialize(o_start);
     check_all();
-    for (int step = 0; step < o_depth; step++) {
+    if (o_survivors > 0) {
+        /*
+         * "survivors": N events are scheduled one after the other; every one is executed at once except three,
+         * which stay pending for later times, so the queue never holds more than four events and never grows,
+         * while handles go up to N. Every ordered triple of survivors (W, V, Z) is enumerated: V then leaves
+         * (cancelled or executed first), W is executed, and every handle query is compared with the model after
+         * each step; finally the rest runs. (Handle keys that share a probe chain in the queue's hash map are
+         * N/8 apart or so: which ones collide is the library's business, all triples are tried.)
+         */
+        const int N = o_survivors;
+        const int w = vx_choose_free(N, "W"), v = vx_choose_free(N, "V"), z = vx_choose_free(N, "Z");
+        const int vleaves = vx_choose_free(2, "V-leaves-by");
+        if (w == v || w == z || v == z) {
+            cmb_event_queue_terminate();
+            return;
+        }
+        uint64_t hw = 0, hv = 0, hz = 0;
+        for (int k = 0; k < N && vx_violations_this_exec() == 0; k++) {
+            opname = "schedule";
+            if (k == w) {
+                hw = do_schedule(m_clock + 20.0, 0, SC_NONE);
+            }
+            else if (k == v) {
+                hv = do_schedule(m_clock + (vleaves ? 10.0 : 30.0), 0, SC_NONE);
+            }
+            else if (k == z) {
+                hz = do_schedule(m_clock + 40.0, 0, SC_NONE);
+            }
+            else {
+                (void)do_schedule(m_clock, 5, SC_NONE); /* due now, ahead of everything else: executed at once */
+                opname = "execute-next";
+                do_execute_next();
+            }
+            check_all();
+        }
+        (void)hw;
+        (void)hz;
+        if (vx_violations_this_exec() == 0) {
+            if (vleaves == 0) {
+                opname = "cancel";
+                do_cancel(hv);
+            }
+            else {
+                opname = "execute-next";
+                do_execute_next(); /* V, due first */
+            }
+            check_all();
+        }
+        if (vx_violations_this_exec() == 0) {
+            opname = "execute-next";
+            do_execute_next(); /* W */
+            check_all();
+        }
+    }
+    for (int step = 0; o_survivors == 0 && step < o_depth; step++) {
         int menu[NOPS], nm = 0;
         for (int op = 0; op < NOPS; op++) {
             bool en = true;
@@ -539,6 +594,7 @@ static void run_one(void)
 static void ginit(void)
 {
     o_depth = (int)vx_opt_int("depth", 3);
+    o_survivors = (int)vx_opt_int("survivors", 0);
     o_start = atof(vx_opt("start", "0"));
     cmb_logger_flags_off(0x7FFFFFFFu);
 }
